@@ -6,14 +6,20 @@ import FitProps.C17
 import FitProofs.EncodeItems
 import FitProofs.MsgRoundtrip
 import FitModel.Gen.Profile
+import FitProofs.Replay
+import FitProps.C01
 /-!
   C06 — Encode then Decode returns the values that were put in.
 
   Per-layer theorems: for every kind of field value, what `encodeScalar`/`encodeString` write is
   read back by `parseFitField` / the time and coordinate branches as the same value.  The
-  composition over whole Files (`decode (encode f) ≈ f`) is checked on every run by the
-  correspondence (real Encode → real Decode, compared with the model's prediction and with the
-  input under the property's equivalence); its Lean proof is not yet assembled.
+  composition over whole Files is `decode_encode_content` / `decode_encode_identity` below
+  (FitProofs/DecodeEncode.lean, FitProofs/Replay.lean): for every File in a decidable domain
+  (`fileRTB`, `fileShapeB`), `Decode (Encode f)` succeeds and returns the File's own messages slot
+  by slot, each passed through `expandComponents` where its type has component fields.  What the
+  domain leaves out (arrays; string, time and coordinate fields set in some messages of a slice but
+  not in others) is covered by the correspondence run only (real Encode → real Decode, compared with
+  the model's prediction and with the input under the property's equivalence).
 -/
 namespace Fit.Props.C06
 open Fit Fit.Props.C02
@@ -482,5 +488,286 @@ set_option maxRecDepth 100000 in
 /-- kernel-evaluated on the regenerated profile: type, manufacturer, product, serial number,
     time_created, number and product_name all come back -/
 example : encodeDecode exampleFileId = some exampleFileId := by decide +kernel
+
+/-! ### whole Files: a decidable round-trip domain -/
+
+/-- is value `v`, stored in a Go field of kind `k`, inside the scalar round-trip domain of profile
+    field `pf`? -/
+def valRT (pf : PField) (k : SlotKind) (v : Val) : Bool :=
+  match k, v with
+  | .sc (.u 8), .u n =>
+    tcKind pf.tcode == .native && !tcArray pf.tcode && decide (n < 256) &&
+      (tcBase pf.tcode == Base.enum || tcBase pf.tcode == Base.byte || tcBase pf.tcode == Base.uint8 ||
+        tcBase pf.tcode == Base.uint8z)
+  | .sc (.u 16), .u n =>
+    tcKind pf.tcode == .native && !tcArray pf.tcode && decide (n < 65536) &&
+      (tcBase pf.tcode == Base.uint16 || tcBase pf.tcode == Base.uint16z)
+  | .sc (.u 32), .u n =>
+    tcKind pf.tcode == .native && !tcArray pf.tcode && decide (n < 4294967296) &&
+      (tcBase pf.tcode == Base.uint32 || tcBase pf.tcode == Base.uint32z)
+  | .sc (.i 8), .i z =>
+    tcKind pf.tcode == .native && !tcArray pf.tcode && decide (-128 ≤ z ∧ z < 128) && tcBase pf.tcode == Base.sint8
+  | .sc (.i 16), .i z =>
+    tcKind pf.tcode == .native && !tcArray pf.tcode && decide (-32768 ≤ z ∧ z < 32768) && tcBase pf.tcode == Base.sint16
+  | .sc (.i 32), .i z =>
+    tcKind pf.tcode == .native && !tcArray pf.tcode && decide (-2147483648 ≤ z ∧ z < 2147483648) &&
+      tcBase pf.tcode == Base.sint32
+  | .sc .s, .s b =>
+    tcKind pf.tcode == .native && !tcArray pf.tcode && tcBase pf.tcode == Base.string &&
+      !b.isEmpty && decide (b.length < pf.length) && b.all (· != 0) &&
+      utf8Valid (b ++ List.replicate (pf.length - b.length) 0)
+  | .time, .t secs 0 0 => tcKind pf.tcode == .timeUTC && decide (0 < secs ∧ secs < 4294967295)
+  | .lat, .lat z => tcKind pf.tcode == .lat && decide (-1073741824 ≤ z ∧ z < 1073741824)
+  | .lng, .lng z => tcKind pf.tcode == .lng && decide (-2147483648 ≤ z ∧ z < 2147483648)
+  | _, _ => false
+
+theorem valRT_sound (P : Profile) (hwf : ProfileWF P = true) (dm : DefMsg) (pf : PField) (k : SlotKind) (v : Val)
+    (hgf : P.getField dm.global pf.num = some pf) (h : valRT pf k v = true) : FieldRT P dm pf k v := by
+  unfold valRT at h
+  split at h
+  · simp only [Bool.and_eq_true, beq_iff_eq, Bool.not_eq_true', decide_eq_true_eq, Bool.or_eq_true] at h
+    obtain ⟨⟨⟨h1, h2⟩, h3⟩, h4⟩ := h
+    exact fieldRT_unsigned P hwf dm pf 1 _ hgf h1 h2 (Or.inl ⟨rfl, by
+      rcases h4 with ((h | h) | h) | h
+      · exact Or.inl h
+      · exact Or.inr (Or.inl h)
+      · exact Or.inr (Or.inr (Or.inl h))
+      · exact Or.inr (Or.inr (Or.inr h))⟩) (by omega)
+  · simp only [Bool.and_eq_true, beq_iff_eq, Bool.not_eq_true', decide_eq_true_eq, Bool.or_eq_true] at h
+    obtain ⟨⟨⟨h1, h2⟩, h3⟩, h4⟩ := h
+    exact fieldRT_unsigned P hwf dm pf 2 _ hgf h1 h2 (Or.inr (Or.inl ⟨rfl, h4⟩)) (by omega)
+  · simp only [Bool.and_eq_true, beq_iff_eq, Bool.not_eq_true', decide_eq_true_eq, Bool.or_eq_true] at h
+    obtain ⟨⟨⟨h1, h2⟩, h3⟩, h4⟩ := h
+    exact fieldRT_unsigned P hwf dm pf 4 _ hgf h1 h2 (Or.inr (Or.inr ⟨rfl, h4⟩)) (by omega)
+  · simp only [Bool.and_eq_true, beq_iff_eq, Bool.not_eq_true', decide_eq_true_eq] at h
+    obtain ⟨⟨⟨h1, h2⟩, h3⟩, h4⟩ := h
+    exact fieldRT_signed P hwf dm pf 1 _ hgf h1 h2 (Or.inl ⟨rfl, h4⟩) (by omega) (by omega)
+  · simp only [Bool.and_eq_true, beq_iff_eq, Bool.not_eq_true', decide_eq_true_eq] at h
+    obtain ⟨⟨⟨h1, h2⟩, h3⟩, h4⟩ := h
+    exact fieldRT_signed P hwf dm pf 2 _ hgf h1 h2 (Or.inr (Or.inl ⟨rfl, h4⟩)) (by omega) (by omega)
+  · simp only [Bool.and_eq_true, beq_iff_eq, Bool.not_eq_true', decide_eq_true_eq] at h
+    obtain ⟨⟨⟨h1, h2⟩, h3⟩, h4⟩ := h
+    exact fieldRT_signed P hwf dm pf 4 _ hgf h1 h2 (Or.inr (Or.inr ⟨rfl, h4⟩)) (by omega) (by omega)
+  · rename_i b
+    simp only [Bool.and_eq_true, beq_iff_eq, Bool.not_eq_true', decide_eq_true_eq, List.all_eq_true, bne_iff_ne,
+      ne_eq] at h
+    obtain ⟨⟨⟨⟨⟨⟨h1, h2⟩, h3⟩, h4⟩, h5⟩, h6⟩, h7⟩ := h
+    exact fieldRT_string P hwf dm pf b hgf h1 h2 h3 (by intro e; rw [e] at h4; cases h4) h5 h6 h7
+  · rename_i secs
+    simp only [Bool.and_eq_true, beq_iff_eq, decide_eq_true_eq] at h
+    obtain ⟨h1, h2, h3⟩ := h
+    have e : secs = ((secs.toNat : Nat) : Int) := (Int.toNat_of_nonneg (by omega)).symm
+    rw [e]
+    exact fieldRT_time P hwf dm pf secs.toNat hgf h1 (by omega) (by omega)
+  · simp only [Bool.and_eq_true, beq_iff_eq, decide_eq_true_eq] at h
+    exact fieldRT_lat P hwf dm pf _ hgf h.1 h.2.1 h.2.2
+  · simp only [Bool.and_eq_true, beq_iff_eq, decide_eq_true_eq] at h
+    exact fieldRT_lng P hwf dm pf _ hgf h.1 h.2.1 h.2.2
+  · cases h
+
+/-- Boolean form of `MsgDom`: every field selected by `w` holds a value in the scalar domain, and
+    every field left invalid holds the constructor's invalid value -/
+def msgDomB (pm : PMsg) (m : Msg) (w : PField → Bool) : Bool :=
+  (pm.fields.all fun pf => !w pf ||
+    match pm.layout[pf.sindex]?, m.vals[pf.sindex]? with
+    | some k, some v => valRT pf k v
+    | _, _ => true) &&
+  (List.range m.vals.length).all fun i =>
+    match m.vals[i]? with
+    | some v => !isInvalidVal pm i v || pm.invalid[i]? == some v
+    | none => true
+
+theorem msgDomB_sound (P : Profile) (hwf : ProfileWF P = true) (arch : Endian) (pm : PMsg) (m : Msg)
+    (hpm : P.msg? m.num = some pm) (hkn : P.known m.num = true) (w : PField → Bool) (W : PField → Prop)
+    (hw : ∀ pf, W pf → w pf = true) (h : msgDomB pm m w = true) : MsgDom P arch pm m W := by
+  unfold msgDomB at h
+  simp only [Bool.and_eq_true, List.all_eq_true, Bool.or_eq_true, Bool.not_eq_true', List.mem_range] at h
+  obtain ⟨h1, h2⟩ := h
+  have hmw := msg?_wf P hwf m.num pm hpm
+  constructor
+  · intro pf hp hW k v hk hv fs
+    have := h1 pf hp
+    rw [hw pf hW, hk, hv] at this
+    simp only [Bool.true_eq_false, false_or] at this
+    exact valRT_sound P hwf (defOf arch m.num fs) pf k v (getField_of_mem P m.num pm hpm hmw pf hp hkn) this
+  · intro i v hv hiv
+    have hi : i < m.vals.length := (List.getElem?_eq_some_iff.mp hv).1
+    have := h2 i hi
+    rw [hv] at this
+    simpa [hiv] using this
+
+def validInB (pm : PMsg) (m : Msg) (pf : PField) : Bool := !isInvalidVal pm pf.sindex (m.vals.getD pf.sindex (.u 0))
+
+def oneDomB (P : Profile) (m : Msg) : Bool :=
+  P.known m.num && match P.msg? m.num with
+    | some pm => msgDomB pm m (validInB pm m)
+    | none => false
+
+theorem oneDomB_sound (P : Profile) (hwf : ProfileWF P = true) (arch : Endian) (m : Msg) (h : oneDomB P m = true) :
+    OneDom P arch m := by
+  unfold oneDomB at h
+  simp only [Bool.and_eq_true] at h
+  obtain ⟨hk, h2⟩ := h
+  refine ⟨hk, fun pm hpm => ?_⟩
+  rw [hpm] at h2
+  exact msgDomB_sound P hwf arch pm m hpm hk _ _ (fun pf hW => by unfold validIn at hW; unfold validInB; rw [hW]; rfl) h2
+
+def slotDomB (P : Profile) (ms : List Msg) : Bool :=
+  match ms with
+  | [] => true
+  | m0 :: _ =>
+    P.known m0.num && ms.all (fun m => m.num == m0.num) &&
+    match P.msg? m0.num with
+    | some pm => ms.all fun m => msgDomB pm m fun pf => ms.any fun m' => validInB pm m' pf
+    | none => false
+
+theorem slotDomB_sound (P : Profile) (hwf : ProfileWF P = true) (arch : Endian) (ms : List Msg)
+    (h : slotDomB P ms = true) : SlotDom P arch ms := by
+  intro m0 rest hms
+  subst hms
+  unfold slotDomB at h
+  simp only [Bool.and_eq_true, List.all_eq_true, beq_iff_eq] at h
+  obtain ⟨⟨hk, hnum⟩, h3⟩ := h
+  refine ⟨hk, hnum, fun pm hpm m hm => ?_⟩
+  rw [hpm] at h3
+  simp only [List.all_eq_true] at h3
+  have hmn : m.num = m0.num := hnum m hm
+  exact msgDomB_sound P hwf arch pm m (by rw [hmn]; exact hpm) (by rw [hmn]; exact hk) _ _
+    (fun pf hW => by
+      obtain ⟨m', hm', hv⟩ := hW
+      simp only [List.any_eq_true]
+      exact ⟨m', hm', by unfold validIn at hv; unfold validInB; rw [hv]; rfl⟩) (h3 m hm)
+
+/-- Boolean form of `FileRT` -/
+def fileRTB (P : Profile) (f : FileSt) : Bool :=
+  decide (f.hdr.size = headerSizeCRC) && decide (f.hdr.dtype = fitTag) &&
+  decide (f.hdr.proto < 256 ∧ f.hdr.proto / 16 ≤ protoMajorMax) && decide (f.fileId.num = mnFileId) &&
+  oneDomB P f.fileId &&
+  (match f.creator with | some m => oneDomB P m | none => true) &&
+  (match f.tscorr with | some m => oneDomB P m | none => true) &&
+  f.slots.all (slotDomB P)
+
+theorem fileRTB_sound (P : Profile) (hwf : ProfileWF P = true) (arch : Endian) (f : FileSt) (h : fileRTB P f = true) :
+    FileRT P arch f := by
+  unfold fileRTB at h
+  simp only [Bool.and_eq_true, decide_eq_true_eq, List.all_eq_true] at h
+  obtain ⟨⟨⟨⟨⟨⟨⟨h1, h2⟩, h3⟩, h4⟩, h5⟩, h6⟩, h7⟩, h8⟩ := h
+  refine ⟨h1, h2, h3, h4, oneDomB_sound P hwf arch _ h5, ?_, ?_, fun ms hms => slotDomB_sound P hwf arch ms (h8 ms hms)⟩
+  · intro m hm
+    rw [hm] at h6
+    exact oneDomB_sound P hwf arch m h6
+  · intro m hm
+    rw [hm] at h7
+    exact oneDomB_sound P hwf arch m h7
+
+/-- Boolean form of `FileShape` for the container the File's type selects -/
+def fileShapeB (c : Container) (f : FileSt) : Bool :=
+  (match f.creator with | some m => m.num == mnFileCreator | none => true) &&
+  (match f.tscorr with | some m => m.num == mnTimestampCorrelation | none => true) &&
+  f.slots.length == c.slots.length &&
+  (c.slots.zip f.slots).all fun z => z.2.all fun m => m.num == z.1.msg
+
+theorem fileShapeB_sound (c : Container) (f : FileSt) (h : fileShapeB c f = true) : FileShape c f := by
+  unfold fileShapeB at h
+  simp only [Bool.and_eq_true, beq_iff_eq, List.all_eq_true] at h
+  obtain ⟨⟨⟨h1, h2⟩, h3⟩, h4⟩ := h
+  refine ⟨?_, ?_, h3, h4⟩
+  · intro m hm; rw [hm] at h1; simpa using h1
+  · intro m hm; rw [hm] at h2; simpa using h2
+
+/-- every container of the regenerated profile has distinct element types, none of them a message
+    type that `File` keeps itself -/
+theorem gen_containers_ok : ∀ c ∈ Gen.profile.containers, containerOK c = true := by decide +kernel
+
+/-- **C06, whole File (regenerated profile).** For every File with `fileRTB`, of the typed API's
+    shape, that `Encode` accepts in either byte order: decoding the bytes written — followed by
+    anything, through any reader, with any option set and any package state — succeeds and returns
+    the same file_id, file_creator, timestamp_correlation and container, and in every slot the File's
+    own messages in order, each passed through `expandComponents` where its type has component fields
+    (with the package-level accumulators threaded in file order). -/
+theorem decode_encode_content (arch : Endian) (f f' : FileSt) (bs : Bytes)
+    (h : encode Gen.profile arch f = .ok bs f') (hdom : fileRTB Gen.profile f = true)
+    (hsmall : bs.length < 4294967296)
+    (hsh : ∀ i, f.cidx = some i → fileShapeB (Gen.profile.containers.getD i default) f = true)
+    (o : Opts) (g : Globals) (tail : Bytes) (stop : Stop) :
+    ∃ (i : Nat) (F' : FileSt), f.cidx = some i ∧
+      (decodeSpec Gen.profile o .full g (bs ++ tail) stop).1.success ∧
+      (decodeSpec Gen.profile o .full g (bs ++ tail) stop).1.st.file = some F' ∧
+      F'.fileId = f.fileId ∧ F'.creator = f.creator ∧ F'.tscorr = f.tscorr ∧ F'.cidx = f.cidx ∧
+      F'.fieldDescs = [] ∧ F'.devIds = [] ∧
+      F'.slots = (expandSlots Gen.profile g (((Gen.profile.containers.getD i default).slots.zip f.slots).map slotMsgs)).1 ∧
+      (decodeSpec Gen.profile o .full g (bs ++ tail) stop).1.st.glob =
+        (expandSlots Gen.profile g (((Gen.profile.containers.getD i default).slots.zip f.slots).map slotMsgs)).2 :=
+  Fit.decode_encode_content Gen.profile Fit.Props.C01.gen_wf gen_containers_ok arch f f' bs h
+    (fileRTB_sound Gen.profile Fit.Props.C01.gen_wf arch f hdom) hsmall
+    (fun i hi => fileShapeB_sound _ f (hsh i hi)) o g tail stop
+
+/-- **C06, whole File, no component fields: `Decode (Encode f) = f`.** -/
+theorem decode_encode_identity (arch : Endian) (f f' : FileSt) (bs : Bytes)
+    (h : encode Gen.profile arch f = .ok bs f') (hdom : fileRTB Gen.profile f = true)
+    (hsmall : bs.length < 4294967296)
+    (hsh : ∀ i, f.cidx = some i → fileShapeB (Gen.profile.containers.getD i default) f = true)
+    (hone : ∀ i, f.cidx = some i → ∀ z ∈ (Gen.profile.containers.getD i default).slots.zip f.slots,
+      z.1.many = false → z.2.length ≤ 1)
+    (hnx : ∀ ms ∈ f.slots, ∀ m ∈ ms, expandSet.contains m.num = false)
+    (o : Opts) (g : Globals) (tail : Bytes) (stop : Stop) :
+    ∃ F' : FileSt,
+      (decodeSpec Gen.profile o .full g (bs ++ tail) stop).1.success ∧
+      (decodeSpec Gen.profile o .full g (bs ++ tail) stop).1.st.file = some F' ∧
+      F'.fileId = f.fileId ∧ F'.creator = f.creator ∧ F'.tscorr = f.tscorr ∧ F'.cidx = f.cidx ∧
+      F'.fieldDescs = [] ∧ F'.devIds = [] ∧ F'.slots = f.slots ∧
+      (decodeSpec Gen.profile o .full g (bs ++ tail) stop).1.st.glob = g :=
+  Fit.decode_encode_identity Gen.profile Fit.Props.C01.gen_wf gen_containers_ok arch f f' bs h
+    (fileRTB_sound Gen.profile Fit.Props.C01.gen_wf arch f hdom) hsmall
+    (fun i hi => fileShapeB_sound _ f (hsh i hi)) hone hnx o g tail stop
+
+/-! ### non-vacuity: a concrete File inside the domain -/
+
+/-- a message of type `n`: the constructor's invalid values with some positions set -/
+def mkMsg (n : Nat) (sets : List (Nat × Val)) : Msg :=
+  match Gen.profile.msg? n with
+  | some pm => ⟨n, sets.foldl (fun vs iv => setAt vs iv.1 iv.2) pm.invalid⟩
+  | none => ⟨n, []⟩
+
+/-- a settings file: two user_profile messages with different valid fields (so the slice gets a
+    union definition and each record carries invalid values), one hrm_profile message -/
+def exampleSettings : FileSt :=
+  { hdr := { size := 14, proto := 0x20, profile := 2115, dtype := fitTag },
+    fileId := mkMsg 0 [(0, .u 2), (1, .u 1), (2, .u 7), (3, .u 12345), (4, .t 1000 0 0)],
+    cidx := some 1,
+    slots := [[mkMsg 3 [(2, .u 1), (3, .u 30)], mkMsg 3 [(3, .u 41), (4, .u 180)]], [mkMsg 4 [(0, .u 1)]], [], [], []] }
+
+def encodesSmall (arch : Endian) (f : FileSt) : Bool :=
+  match encode Gen.profile arch f with
+  | .ok bs _ => decide (bs.length < 4294967296)
+  | _ => false
+
+set_option maxRecDepth 100000 in
+/-- the premises of `decode_encode_identity` are satisfiable: for this File, in both byte orders,
+    `Encode` succeeds, the File is in the domain and of the typed shape — hence `Decode` of the
+    bytes, with anything after them, returns its slots unchanged -/
+example (arch : Endian) (o : Opts) (g : Globals) (tail : Bytes) (stop : Stop) :
+    ∃ bs f' F', encode Gen.profile arch exampleSettings = .ok bs f' ∧
+      (decodeSpec Gen.profile o .full g (bs ++ tail) stop).1.st.file = some F' ∧
+      F'.fileId = exampleSettings.fileId ∧ F'.slots = exampleSettings.slots := by
+  have h1 : encodesSmall arch exampleSettings = true := by cases arch <;> decide +kernel
+  unfold encodesSmall at h1
+  cases he : encode Gen.profile arch exampleSettings with
+  | error => rw [he] at h1; cases h1
+  | panic => rw [he] at h1; cases h1
+  | ok bs f' =>
+    rw [he] at h1
+    simp only [decide_eq_true_eq] at h1
+    have hi : ∀ i, exampleSettings.cidx = some i → i = 1 := by
+      intro i hi
+      have : exampleSettings.cidx = some 1 := rfl
+      rw [this] at hi
+      injection hi with hi
+      exact hi.symm
+    obtain ⟨F', _, hF, h3, _, _, _, _, _, h9, _⟩ := decode_encode_identity arch exampleSettings f' bs he (by decide +kernel) h1
+      (fun i h => by rw [hi i h]; decide +kernel)
+      (fun i h => by rw [hi i h]; decide +kernel)
+      (by decide +kernel) o g tail stop
+    exact ⟨bs, f', F', rfl, hF, h3, h9⟩
 
 end Fit.Props.C06
